@@ -208,7 +208,7 @@ func TestC02Stress(t *testing.T) {
 	rng := NewRng(r.Seed, "c02s")
 	reps, per := pick(3, 24), pick(300, 1500)
 	if raceEnabled {
-		reps, per = pick(2, 8), pick(80, 300)
+		reps, per = pick(1, 8), pick(80, 300)
 	}
 	shard, _ := shardInfo()
 	for rep := 0; rep < reps; rep++ {
